@@ -12,9 +12,10 @@ Definition oracle := nat -> fault.
 Inductive call :=
 | COpenR (p : str) | COpenExcl (p : str) | COpenW (p : str) | COpenA (p : str) | COpenDir (p : str)
 | CClose | CRead (n : nat) | CWrite (n : nat) | CSendfile (off n : nat)
-| CMkdir (p : str) | CMkdirat (p : str) | CRmdir (p : str) | CUnlink (p : str) | CUnlinkat (name : str)
-| CLink (a b : str) | CLinkat (a b : str) | CSymlinkat (target name : str)
-| CReadlinkat (name : str) (size : nat) | CFstat | CFstatat (name : str) | CAccess (p : str)
+(* the *at calls carry the directory behind the descriptor (not printed in the log) *)
+| CMkdir (p : str) | CMkdirat (dir p : str) | CRmdir (p : str) | CUnlink (p : str) | CUnlinkat (dir name : str)
+| CLink (a b : str) | CLinkat (a dir b : str) | CSymlinkat (target dir name : str)
+| CReadlinkat (dir name : str) (size : nat) | CFstat | CFstatat (dir name : str) | CAccess (p : str)
 | CFtruncate | CScandir (p : str) | CFtsOpen (p : str).
 
 Inductive ret := RInt (n : Z) | RFd | ROk | RErr (e : errno) | RFault (e : errno).
@@ -89,15 +90,15 @@ Definition sys_unit (c : call) (op : fs -> option errno * fs) : M (option errno)
   sys c (fun f => let '(e, f') := op f in (err_ret e, e, f')) (fun e => Some e).
 
 Definition k_mkdir (p : str) := sys_unit (CMkdir p) (fs_mkdir p).
-Definition k_mkdirat (dir rel : str) := sys_unit (CMkdirat rel) (fs_mkdir (join dir rel)).
+Definition k_mkdirat (dir rel : str) := sys_unit (CMkdirat dir rel) (fs_mkdir (join dir rel)).
 Definition k_rmdir (p : str) := sys_unit (CRmdir p) (fs_rmdir p).
 Definition k_unlink (p : str) := sys_unit (CUnlink p) (fs_unlink p).
-Definition k_unlinkat (dir name : str) := sys_unit (CUnlinkat name) (fs_unlink (join dir name)).
+Definition k_unlinkat (dir name : str) := sys_unit (CUnlinkat dir name) (fs_unlink (join dir name)).
 Definition k_link (a b : str) := sys_unit (CLink a b) (fs_link a b).
-Definition k_linkat (a dir rel : str) := sys_unit (CLinkat a rel) (fs_link a (join dir rel)).
+Definition k_linkat (a dir rel : str) := sys_unit (CLinkat a dir rel) (fs_link a (join dir rel)).
 Definition k_symlinkat (target dir name : str) : M (option errno) :=
   do now <- get_clock;
-  sys_unit (CSymlinkat target name) (fs_symlink (join dir name) target now).
+  sys_unit (CSymlinkat target dir name) (fs_symlink (join dir name) target now).
 
 Definition k_open_gen (c : call) (op : fs -> (fd + errno) * fs) : M (fd + errno) :=
   sys c (fun f => let '(r, f') := op f in
@@ -162,7 +163,7 @@ Definition k_ftruncate (i : nat) : M (option errno) :=
   sys_unit CFtruncate (fun f => (None, fs_truncate i f)).
 
 Definition k_readlinkat (dir name : str) (size : nat) : M (str + errno) :=
-  sys (CReadlinkat name size)
+  sys (CReadlinkat dir name size)
       (fun f => match fs_readlink (join dir name) f with
                 | inl t => (RInt (Z.of_nat (Nat.min size (length t))), inl (firstn size t), f)
                 | inr e => (RErr e, inr e, f)
@@ -170,7 +171,7 @@ Definition k_readlinkat (dir name : str) (size : nat) : M (str + errno) :=
       (fun e => inr e).
 
 Definition k_fstatat_mtime (dir name : str) : M (Z + errno) :=
-  sys (CFstatat name)
+  sys (CFstatat dir name)
       (fun f => match fs_lstat_mtime (join dir name) f with
                 | inl m => (RInt 0, inl m, f)
                 | inr e => (RErr e, inr e, f)
